@@ -91,8 +91,10 @@ def laws(text, r: random.Random, flags):
     # (b) set fresh then rm restores bytes
     for _ in range(2):
         depth = r.choice([0, 0] + ([d for d in range(1, nl + 1)] if scoped_ok else []))
-        if depth == 0 and False:
-            pass
+        create_layer = False
+        if nl == 0 and scoped_ok and "alias" not in view.kinds and r.random() < 0.3 and not (flags.get("no_create_layer_under_with") and view.kinds and view.kinds[-1] in ("with", "assert")):
+            # `set @x` creates the one innermost layer, `rm @x` drops it again
+            depth, create_layer = 1, True
         name = r.choice(["fresh1", "zz", "added", "foo-bar", "n9"])
         path = E.enc((name,), depth)
         m = copy.deepcopy(model)
@@ -103,7 +105,7 @@ def laws(text, r: random.Random, flags):
         if "replace" in notes:
             continue
         v = r.choice(E.VALUES)  # multi-line values too: adding and removing them must not leave the set expanded
-        out.append(("b-set-rm-restores", f"set {path} {v}; rm {path}", [], [("set", path, v), ("rm", path, None)], "equal-original"))
+        out.append(("b-set-rm-restores", f"set {path} {v}; rm {path}", [], [("set", path, v), ("rm", path, None)], "equal-original-nl" if create_layer else "equal-original"))
     # (c) rm then set old value restores tree
     for _ in range(2):
         depth = r.choice(depth_choices)
@@ -158,8 +160,10 @@ def check_law(text, law, same_object):
             b = _apply_seq(text, seq_b, same_object)
             if a != b:
                 return [(name, {"desc": desc, "once": a[:400], "twice": b[:400]})]
-        elif how == "equal-original":
+        elif how in ("equal-original", "equal-original-nl"):
             b = _apply_seq(text, seq_b, same_object)
+            if how == "equal-original-nl" and b.rstrip("\n") == text.rstrip("\n"):
+                b = text  # the final newline after dropping the only layer is finding F11 (pinned by a repository test)
             if b != text:
                 return [(name, {"desc": desc, "original": text[:400], "after": b[:400]})]
         elif how == "equal-tree":
